@@ -371,6 +371,18 @@ func rangeFromGo(u *Universe, rg *index.Range) []interface{} {
 
 // boundary-rich values: duplicates, nil, mixed types
 func scanValues(u *Universe) []V {
+	if u.NumTable == "floats" {
+		// boundary encodings: extremes, neighbours one ulp apart, values whose key ends in 0xFF
+		vals := []V{ANil()}
+		for ord := range u.nums {
+			reps := u.Reps(ord)
+			vals = append(vals, ANum(ord, reps[len(reps)-1]))
+		}
+		for ord := range u.times {
+			vals = append(vals, ATime(ord, 0))
+		}
+		return append(vals, AStr(""), AStr("\xff"), AStr("\xff\xff"), ABool(true))
+	}
 	return []V{ANil(), ANum(6, "i"), ANum(8, "i"), ANum(8, "f"), ANum(9, "f"), ANum(10, "i"), ANum(11, "u"), AStr(""), AStr("a"), AStr("a\x00"), AStr("ab"),
 		ABool(false), ABool(true), ATime(0, 0), ATime(3, 1), AArr(), AArr(ANum(8, "i")), AObj(), AObj("a", ANum(8, "i"))}
 }
@@ -383,17 +395,20 @@ func validRange(s, e V, si, ei int) bool {
 }
 
 func auxScan(r *rand.Rand, n int, emit func(E), stats map[string]int) {
-	u := NewUniverse("general", "general")
-	vals := scanValues(u)
-	bounds := []V{V{"nobound"}} // a nil bound *is* the open end (or, when included, the value nil)
-	for _, v := range vals {
-		if v[0] != "nil" {
-			bounds = append(bounds, v)
-		}
-	}
 	dir, _ := os.MkdirTemp(scratchBase(), "verif-scan-")
 	defer os.RemoveAll(dir)
 	for it := 0; it < n; it++ {
+		u := NewUniverse("general", "general")
+		if it%2 == 1 {
+			u = NewUniverse("floats", "general")
+		}
+		vals := scanValues(u)
+		bounds := []V{V{"nobound"}} // a nil bound *is* the open end (or, when included, the value nil)
+		for _, v := range vals {
+			if v[0] != "nil" {
+				bounds = append(bounds, v)
+			}
+		}
 		be := []string{"bolt", "badger", "badgermem"}[it%3]
 		b, err := NewBackend(be, dir, nil)
 		if err != nil {
@@ -438,6 +453,17 @@ func auxScan(r *rand.Rand, n int, emit func(E), stats map[string]int) {
 			} else {
 				for {
 					s, e := bounds[r.Intn(len(bounds))], bounds[r.Intn(len(bounds))]
+					// bounds that coincide with stored values are where inclusivity matters
+					if len(entries) > 0 && r.Intn(10) < 6 {
+						if v := toV(toList(entries[r.Intn(len(entries))])[0]); v[0] != "nil" {
+							s = v
+						}
+					}
+					if len(entries) > 0 && r.Intn(10) < 4 {
+						if v := toV(toList(entries[r.Intn(len(entries))])[0]); v[0] != "nil" {
+							e = v
+						}
+					}
 					si, ei := r.Intn(2), r.Intn(2)
 					if r.Intn(4) == 0 {
 						e = s
@@ -484,7 +510,7 @@ func auxScan(r *rand.Rand, n int, emit func(E), stats map[string]int) {
 			if committed {
 				phase = "committed"
 			}
-			emit(E{"kind": "scan", "be": be, "phase": phase, "coll": coll, "field": field, "entries": entries, "range": rg, "reverse": reverse, "stop": stop,
+			emit(E{"kind": "scan", "be": be, "phase": phase, "coll": coll, "field": field, "table": u.NumTable, "entries": entries, "range": rg, "reverse": reverse, "stop": stop,
 				"obs": obs, "calls": calls, "err": errS, "panicked": panicked})
 			stats["scan/"+be+"/"+phase]++
 		}
